@@ -81,7 +81,7 @@ ADDED = {
  "C10": " Later additions: EVERY polar ring (last index, first of the next, one generic index) of depths 12..18 (quick) / 14..29 (thorough); carry-chain NESTED cells." + SEQ,
  "C11": " The former known finding KF-2 is repaired (fix 5b063a3). Later additions: nside SWEEP, every nside 1..40000 (quick) / 2^20 (thorough) on 18 key cells + the six public layout constants (n_hash, n_isolatitude_rings, first_hash_*) against R3." + SEQ,
  "C12": " Later additions: deep polygons (depths to 29), longitude representations (+-2pi, +6pi, unwrapped across lon = 0), polar exact-mode polygons, vertex-count sweep (every n = 9..132 / 520, pie slices and regular n-gons)." + SEQ,
- "C13": " Later additions: deep tier (depths 9..29, ellipses 0.3..31 cells across), deep-large tier (thousands of cells across). KF-1 repaired (fix f1d7abd)." + SEQ,
+ "C13": " Later additions: deep tier (depths 9..29, ellipses 0.3..31 cells across), deep-large tier (thousands of cells across), thin rotated ellipses tens of cells long, tightness evaluated on the descendants of coarse entries. KF-1 repaired (fix f1d7abd)." + SEQ,
  "C14": " Later additions: delta_depth 5, 8, 9, 13, 17 and a sweep of every delta_depth 4..12 / 16; carry-chain cells; the two public direction helpers of lib.rs checked directly and exhaustively on every border cell x outward neighbour; huge delta_depth (21..23): internal edge, side helpers and external edge element by element; periodic coordinates." + SEQ,
  "C15": " Later additions: bulk pushes (~9000), one-tile sets, re-push SIZE SWEEP (a whole tile then every n = 1..340 / 4200 of its cells again), merge-cascade sequences (every cascade length 1..29), long scattered histories of 2^k-1..2^k+1 pushes (k = 10..16 / 20), word-size aliases (runs continued modulo 2^8, 2^16, 2^32).",
  "C16": " Later additions: claim-2 radii up to pi; claim 3 at the NARROWEST cells of depths 0..6 / 0..8 located by exhaustive search; carry-chain cells. KF-1 repaired (fix f1d7abd)." + SEQ,
